@@ -16,7 +16,8 @@ CONSTANT K      \* maximal number of output lines
 
 Classes == {"plain", "blank", "ws_only", "trail_ws", "lead_ws", "looks_code", "looks_cmd", "looks_cont", "fence3", "fence4",
             "sfx_kind", "sfx_quant", "sfx_empty", "sfx_esc", "sfx_noeol", "bslash", "ctrl", "bslash_ctrl", "bslash_other", "tail_cr", "utf8",
-            "utf8_other", "invalid_utf8", "hash", "fence_indent"}
+            "utf8_other", "invalid_utf8", "hash", "fence_indent", "mid_mod"}
+\* ("mid_mod": modifier-like text in the MIDDLE of the line, e.g. `value (escaped) here` -- collides with nothing)
 \* what a line of the class could be mistaken for when written verbatim into a test block
 Collides(c, fmt) ==
     CASE c = "looks_code" -> "exit-code"
@@ -33,7 +34,9 @@ vars == <<lines, lastEol, code, fmt, esc, path>>
 Init == /\ lines \in UNION {[1..n -> Classes] : n \in 0..K}
         /\ lastEol \in BOOLEAN /\ (lines = <<>> => lastEol)
         /\ code \in {0, 3} /\ fmt \in {"md", "cram"} /\ esc \in {"ascii", "unicode"}
-        /\ path \in {"create", "update_output", "update_code", "convert"}
+        \* update_pass / convert_pass: a PASSING test is written again (updating a Cram document writes every test anew,
+        \* `--convert` writes every test in the other format); the test it starts from is the one `create` wrote
+        /\ path \in {"create", "update_output", "update_code", "convert", "update_pass", "convert_pass"}
 Next == UNCHANGED vars
 Spec == Init /\ [][Next]_vars
 
